@@ -35,7 +35,7 @@ class C28:
     def __init__(self, tier):
         self.tier = tier
         if tier == 'thorough':
-            self.examples = 30000
+            self.examples = 15000
             self.workers = 16
 
     def make_executor(self):
